@@ -118,7 +118,7 @@ def run(ctx):
     ctx.add_obligations(vcheck.coq_props("Exec", "C04"))
     ctx.cov["checker_cmd"] = "coqc -Q coq/Exec BWExec coq/Exec/Props/C04.v; work/bin/h_exec -seed S -n N | model evaluated by vm_compute (coq/Exec/Corr.v step_agrees)"
     n = 3000 if ctx.tier == "thorough" else 130
-    seqs = hexec(["-seed", str(ctx.seed), "-n", str(n)])
+    seqs = hexec(["-seed", str(ctx.seed), "-n", str(n)] + (["-big"] if ctx.tier == "thorough" else []))
     # exhaustive small scope: every sequence of at most 2 (quick) / 3 (thorough) statements of the fixed 12-statement pool
     pool = hexec(["-mode", "pool", "-len", "3" if ctx.tier == "thorough" else "2"])
     for q in pool:
